@@ -273,7 +273,10 @@ class Trimesh(Geometry3D):
             # being returned so there is no danger of inconsistent dimensions
             self.remove_infinite_values()
             self.merge_vertices(merge_tex=merge_tex, merge_norm=merge_norm)
-            self._cache.clear(exclude={"face_normals", "vertex_normals"})
+            # `fix_normals` may have re-wound faces in which
+            # case the stored normals point the wrong way
+            keep = set() if validate else {"face_normals", "vertex_normals"}
+            self._cache.clear(exclude=keep)
 
         self.metadata["processed"] = True
         return self
